@@ -17,22 +17,23 @@ vars == <<w, ord, pc, dt, hist>>
 \* [del, tot] of the harness' timeline pool (harness_bevy POOL), ids 1..10
 TLP == << [del |-> 0, tot |-> 8], [del |-> 4, tot |-> 12], [del |-> 2, tot |-> 10], [del |-> 0, tot |-> INF],
           [del |-> 3, tot |-> 9], [del |-> 0, tot |-> 6], [del |-> 8, tot |-> 24], [del |-> 0, tot |-> 1],
-          [del |-> 1, tot |-> 7], [del |-> 0, tot |-> 8] >>
-Cfg(keytl, chain, hassel, hasb) == [TL |-> TLP, KeyTl |-> keytl, ChainNext |-> chain, HasSel |-> hassel, HasB |-> hasb]
+          [del |-> 1, tot |-> 7], [del |-> 0, tot |-> 8], [del |-> 4, tot |-> 8], [del |-> 2, tot |-> 8],
+          [del |-> 0, tot |-> 8], [del |-> 1, tot |-> 8] >>    \* 13, 14: merged timelines (min delay, max total)
+Cfg(keytl, chain, hassel, hasb, hase2) == [TL |-> TLP, KeyTl |-> keytl, ChainNext |-> chain, HasSel |-> hassel, HasB |-> hasb, HasE2 |-> hase2]
 Worlds == <<
-  [c |-> Cfg(<<0, 0, 0>>, <<0, 0, 0>>, FALSE, FALSE), tlA |-> 2, tlB |-> 0, key0 |-> 1],
-  [c |-> Cfg(<<0, 0, 0>>, <<0, 0, 0>>, FALSE, FALSE), tlA |-> 4, tlB |-> 0, key0 |-> 1],
-  [c |-> Cfg(<<0, 0, 0>>, <<0, 0, 0>>, FALSE, FALSE), tlA |-> 3, tlB |-> 0, key0 |-> 1],
-  [c |-> Cfg(<<1, 2, 0>>, <<2, 0, 1>>, TRUE, TRUE),  tlA |-> 0, tlB |-> 8, key0 |-> 1],
-  [c |-> Cfg(<<8, 6, 3>>, <<2, 3, 1>>, TRUE, TRUE),  tlA |-> 0, tlB |-> 1, key0 |-> 2],
-  [c |-> Cfg(<<5, 0, 7>>, <<0, 1, 0>>, TRUE, FALSE), tlA |-> 0, tlB |-> 0, key0 |-> 1] >>
+  [c |-> Cfg(<<0, 0, 0>>, <<0, 0, 0>>, FALSE, FALSE, FALSE), tlA |-> 2, tlB |-> 0, tlE2 |-> 0, e2first |-> FALSE, key0 |-> 1],
+  [c |-> Cfg(<<0, 0, 0>>, <<0, 0, 0>>, FALSE, FALSE, FALSE), tlA |-> 4, tlB |-> 0, tlE2 |-> 0, e2first |-> FALSE, key0 |-> 1],
+  [c |-> Cfg(<<0, 0, 0>>, <<0, 0, 0>>, FALSE, FALSE, TRUE),  tlA |-> 3, tlB |-> 0, tlE2 |-> 0, e2first |-> TRUE,  key0 |-> 1],  \* idle animator spawned first
+  [c |-> Cfg(<<1, 2, 0>>, <<2, 0, 1>>, TRUE, TRUE, FALSE),  tlA |-> 0, tlB |-> 8, tlE2 |-> 0, e2first |-> FALSE, key0 |-> 1],
+  [c |-> Cfg(<<8, 6, 14>>, <<2, 3, 1>>, TRUE, TRUE, FALSE), tlA |-> 0, tlB |-> 1, tlE2 |-> 0, e2first |-> FALSE, key0 |-> 2],  \* key 3: merged, delays 1 / 2
+  [c |-> Cfg(<<5, 0, 7>>, <<0, 1, 0>>, TRUE, FALSE, TRUE),  tlA |-> 0, tlB |-> 0, tlE2 |-> 8, e2first |-> FALSE, key0 |-> 1] >>  \* second entity ends early
 W0 == Worlds[KW]
 Ops == IF W0.c.HasSel
        THEN [op : {"key"}, k : 1..3] \cup [op : {"enable"}, T : {"A"}, b : BOOLEAN] \cup [op : {"reset"}, T : {"A"}]
        ELSE [op : {"enable"}, T : {"A"}, b : BOOLEAN] \cup [op : {"reset"}, T : {"A"}] \cup [op : {"settl"}, T : {"A"}, id : {1, 8}]
             \cup [op : {"setpos"}, T : {"A"}, p : {0, 5}]
 
-Init == /\ w = World0(W0.c, W0.tlA, W0.tlB, W0.key0, TRUE)
+Init == /\ w = World0(W0.c, W0.tlA, W0.tlB, W0.tlE2, W0.key0, TRUE)
         /\ ord \in (IF OrdSel = 0 THEN Orders ELSE {CHOOSE o \in Orders : o[1] = "chain" /\ o[2] = "select" /\ o[3] = "animA"})
         /\ pc = 0 /\ dt = 0 /\ hist = <<>>
 
@@ -58,12 +59,12 @@ Spec == Init /\ [][Next]_vars
 View == <<w, ord, pc, dt, Len(hist), IF hist # <<>> THEN hist[Len(hist)].ev ELSE "none">>
 
 \* ---------------- C18: properties of the animate::<T> step ---------------------------------
-AnimStep(T) == pc \in 1..4 /\ ord[pc] = (IF T = "A" THEN "animA" ELSE "animB") /\ (T = "B" => w.c.HasB)
+AnimStep(T) == pc \in 1..4 /\ ord[pc] = (IF T = "B" THEN "animB" ELSE "animA") /\ (T = "B" => w.c.HasB) /\ (T = "A2" => w.c.HasE2)
 Tot(a) == w.c.TL[a.tl].tot
 Del(a) == w.c.TL[a.tl].del
 C18Step(T) ==
   LET a0 == w.an[T]  a1 == w'.an[T]  active == a0.en /\ a0.tl # 0 IN
-  /\ (~a0.en => w' = w)                                                       \* disabled: nothing changes
+  /\ (~a0.en => (a1 = a0 /\ w'.cid[T] = w.cid[T]))                             \* disabled: nothing changes
   /\ (a1.pos = a0.pos + dt) \/ (a1.pos = a0.pos)
   /\ (active /\ a1.st # "Ended") => a1.pos = a0.pos + dt                      \* time conserved
   /\ (~active \/ a1.st = "Ended") => a1.pos = a0.pos                          \* stops growing once ended
@@ -75,10 +76,11 @@ C18Step(T) ==
   /\ (active /\ a1.st = "Ended" /\ a0.st # "Ended") =>                        \* holds the terminal values
         (w'.cid[T][1] = "eval" /\ w'.cid[T][2] = a0.tl /\ w'.cid[T][4] >= Tot(a0))
   /\ (active /\ a0.st = "Playing") => w'.cid[T] = <<"eval", a0.tl, a0.ovf, a0.pos>>   \* at most one frame old
-  /\ (Len(w'.out) = Len(w.out) + (IF a1.st # a0.st THEN 1 ELSE 0))             \* one event per change ...
-  /\ (a1.st # a0.st => w'.out[Len(w'.out)] = <<T, a1.st>>)                     \* ... carrying the end-of-frame state
+  /\ Cardinality({i \in 1..Len(w'.out) : w'.out[i][1] = T}) =
+       Cardinality({i \in 1..Len(w.out) : w.out[i][1] = T}) + (IF a1.st # a0.st THEN 1 ELSE 0)   \* one event per change ...
+  /\ (a1.st # a0.st => \E i \in 1..Len(w'.out) : w'.out[i] = <<T, a1.st>>)      \* ... carrying the end-of-frame state
   /\ a1.runEnded <= 1                                                          \* exactly one Ended per run
-C18 == [][(AnimStep("A") => C18Step("A")) /\ (AnimStep("B") => C18Step("B"))]_vars
+C18 == [][(AnimStep("A") => C18Step("A")) /\ (AnimStep("B") => C18Step("B")) /\ (AnimStep("A2") => C18Step("A2"))]_vars
 
 \* ---------------- C19: properties of the select / chain steps -------------------------------
 SelStep == pc \in 1..4 /\ ord[pc] = "select" /\ w.c.HasSel
@@ -98,6 +100,7 @@ C19Chain ==
   /\ w'.fired <= w.fired + 1                                                   \* at most one link per frame
   /\ w'.fired > w.fired =>
        /\ w.an["A"].st = "Ended" /\ w.prev = w.key                             \* governed animator ended under the active key
+       /\ \E i \in 1..Len(w.unread) : w.unread[i][2] = "Ended" /\ w.unread[i][1] # "A2"   \* woken by an event of THIS entity
        /\ (w.c.KeyTl[w.key] # 0 => w.an["A"].tl = w.c.KeyTl[w.key])
        /\ w.c.ChainNext[w.key] # 0 /\ w'.key = w.c.ChainNext[w.key]            \* ... which has an entry
   /\ w'.fired = w.fired => w'.key = w.key
